@@ -185,21 +185,22 @@ CLAIMED = {
  "C02": dict(
    text="Coq theorems (C02.v): NO STUCK STATE — for every settled snapshot within the premises, an empty plan implies the pods are exactly the desired ones, "
         "steady, identity/storage in order, and at the update revision from the partition up; FIXED POINT — converged pods give an empty plan, and then every "
-        "reconcile (all API states, oracles) issues no pod or claim write; TERMINATION (TerminationProofs.v) — a fair round (plan takes effect, terminating pods "
-        "finish, created pods become Ready) of any well-formed snapshot of any size strictly decreases the measure mu while the plan is non-empty and keeps "
-        "well-formedness, hence after at most mu(pods) rounds the pods are converged and stay so, whatever current revision each round resolves, and the status the pod "
-        "phase computes there says replicas = readyReplicas = spec.replicas (ConvergedStatus.v); QUIET "
-        "(QuietProofs.v) — in a world satisfying the decidable condition quietb (nothing to adopt or claim, update revision newest, empty plan, stored status = "
-        "computed status, history within limit) a fault-free reconcile succeeds, leaves the API state unchanged and logs list/get calls only. "
-        "PARTIAL: that the full reconcile model's round (revision phase, adoption, executor) yields the pods of the abstract round is evaluated inside coqc on "
-        "worlds observed in histories and on synthetic settled worlds, not proved; that a fair history ends in a quietb world is evaluated inside coqc on the final "
-        "world of every generated history, not proved. Both are "
+        "reconcile (all API states, oracles) issues no pod or claim write; TERMINATION (TerminationProofs.v) — a fair round of any well-formed snapshot of any "
+        "size strictly decreases the measure mu while the plan is non-empty and keeps well-formedness, hence after at most mu(pods) rounds the pods are converged "
+        "and stay so, whatever current revision each round resolves, for ANY environment whose snapshots have the members of the round (TerminationEnv.v), and "
+        "the status computed there says replicas = readyReplicas = spec.replicas (ConvergedStatus.v); FULL MODEL (RoundExec/RoundLift/RoundChain.v) — one fair "
+        "round of the full reconcile + environment model (revision phase, claiming, planner, executor, status write, truncation, kubelet) of a regular world has "
+        "exactly the members of the abstract round, hence along the fair rounds of the full model the pods converge within mu rounds as long as every round "
+        "starts from a regular world (non-vacuity: a concrete 8-world chain, RoundExample.v); QUIET (QuietProofs.v) — in a world satisfying the decidable "
+        "condition quietb a fault-free reconcile succeeds, leaves the API state unchanged and logs list/get calls only. "
+        "PARTIAL: that regularity is preserved by a round of the full model, and that a fair history ends in a quietb world, are evaluated inside coqc (round_check "
+        "on worlds observed at round boundaries of histories and on synthetic settled worlds; quietb on the final world of every history), not proved. Both are "
         "decided on the implementation on every generated history (chaotic prefix of reconciles, kubelet events, partial cache refreshes, faults, edits that stop; "
         "fair suffix): converged, status = census, last two reconciles write nothing. The environment model (Env.v) is compared with the real world after every op inside coqc.",
    note="PARTIAL as stated (comment (4) in C02.v). Premises: valid defaulted spec (RollingUpdate carries a partition), canonical names, no unclaimable pod "
         "holding a desired name, not paused/deleting, no terminal-phase pod outside the desired set.",
-   technique="Coq proof (fixed points, progress and termination measure of the pod phase) + history-level differential correspondence of the environment model "
-             "+ in-Coq evaluation tying the abstract round to the full model + convergence monitor",
+   technique="Coq proof (fixed points, progress, termination measure of the pod phase, lifting of the round to the full reconcile + environment model, quiet worlds) "
+             "+ history-level differential correspondence of the environment model + in-Coq evaluation of the regularity hypotheses + convergence monitor",
    ref="6 C02"),
 }
 
